@@ -24,3 +24,68 @@ theorem wcSplit_seq_agree_cfg (cfg : Cfg) (sc : Split.Cfg) (hp : sc.pathname = c
   SeqScan.wcsplit_sequence_agree cfg sc hp hb ps it
 
 end WcModel.C07
+
+/-! ### a failed group is rescanned from its start (D35) -/
+
+namespace WcModel.Split
+
+theorem rewind_aux (cfg : Cfg) : ∀ fuel,
+    (∀ rest r, parseExtend cfg fuel rest = (false, r) → r = rest) ∧
+    (∀ c rest index r, extLoop cfg fuel c rest index = (false, r) → r = index) := by
+  intro fuel
+  induction fuel with
+  | zero =>
+    refine ⟨?_, ?_⟩
+    · intro rest r h; simp only [parseExtend, Prod.mk.injEq, true_and] at h; exact h.symm
+    · intro c rest index r h; simp only [extLoop, Prod.mk.injEq, true_and] at h; exact h.symm
+  | succ n ih =>
+    obtain ⟨_, ihl⟩ := ih
+    refine ⟨?_, ?_⟩
+    · intro rest r h
+      simp only [parseExtend] at h
+      split at h
+      · simp only [Prod.mk.injEq, true_and] at h; exact h.symm
+      · split at h
+        · simp only [Prod.mk.injEq, true_and] at h; exact h.symm
+        · exact ihl _ _ _ _ h
+    · intro c rest index r h
+      simp only [extLoop] at h
+      split at h
+      · simp at h
+      · split at h
+        · simp only [Prod.mk.injEq, true_and] at h; exact h.symm
+        · split at h
+          · exact ihl _ _ _ _ h
+          · split at h
+            · split at h <;> exact ihl _ _ _ _ h
+            · split at h
+              · split at h <;> exact ihl _ _ _ _ h
+              · exact ihl _ _ _ _ h
+
+end WcModel.Split
+
+namespace WcModel.C07
+
+/-- **D35 (repaired by the `fix:` commit 32e8776), the property the repair is about**: whenever
+    `WcSplit.parse_extend` gives up on an extended group — no `(`, no closing `)`, for EVERY text,
+    configuration and nesting — the scanner is back exactly where it was just after the list-type
+    character, so the text of the failed group is rescanned from its start.  Before the repair the
+    rewind mark was overwritten at every `[` inside the group (the slip `_GlobSplit.parse_extend`
+    had, D30): after `@(a[|]b` the scan resumed just after the `[` and split at the `|`, which the
+    parser reads as a bracket member — `fnmatch('@(a|b', '@(a[|]b', SPLIT|EXTMATCH)` was False
+    although the same call without SPLIT is True. -/
+theorem wcSplit_failed_group_rewinds (cfg : Split.Cfg) (fuel : Nat) (rest r : List Char)
+    (h : Split.parseExtend cfg fuel rest = (false, r)) : r = rest :=
+  (Split.rewind_aux cfg fuel).1 rest r h
+
+open WcModel.Split in
+/-- D35: the old failing inputs split as the parser reads them (an unclosed group is literal text,
+    the bracket after it holds the `|`); fails again if the defect returns -/
+theorem D35_fixed_witness :
+    let ext : Split.Cfg := { pathname := false, extend := true, bslashAbort := false }
+    wcSplit ext "@(a[|]b".toList = ["@(a[|]b".toList] ∧
+    wcSplit ext "*([|]".toList = ["*([|]".toList] ∧
+    wcSplit ext "!(x[a|b]|c".toList = ["!(x[a|b]".toList, "c".toList] ∧
+    wcSplit ext "@(a[|]b)|c".toList = ["@(a[|]b)".toList, "c".toList] := by decide +kernel
+
+end WcModel.C07
